@@ -29,9 +29,33 @@ def parse(name):
     return meta
 
 
+def real_field_names(ctx, meta):
+    """`//@ realname: alloc world::entity::EntitiesRes`: the witness names a PRIVATE field (to show that it is private).  If the field was
+    renamed (sa/canon.py mapped it back for the rule packs) the witness is compiled with the field's real name, and the expected
+    diagnostic substring is adjusted, so that it keeps proving privacy instead of failing for 'no such field'."""
+    spec = meta.get("realname")
+    if not spec:
+        return None
+    canon_name, adt = spec.split()[:2]
+    m = ctx.facts(meta["config"]).d.get("_canon") or {}
+    for cur, can in m.items():
+        if can == "%s.%s" % (adt, canon_name) and cur.startswith(adt + "."):
+            return canon_name, cur[len(adt) + 1:]
+    return None
+
+
 def compile_witness(ctx, name, meta):
     cfg = meta["config"]
     fdir = ctx.facts_dir(cfg)
+    rn = real_field_names(ctx, meta)
+    if rn:
+        src = open(meta["path"]).read().replace("." + rn[0], "." + rn[1])
+        tmp = os.path.join(extract.CACHE, "witness-out", "%s-%d.rs" % (name, os.getpid()))
+        os.makedirs(os.path.dirname(tmp), exist_ok=True)
+        open(tmp, "w").write(src)
+        meta = dict(meta, path=tmp)
+        if meta.get("expect") and rn[0] in meta["expect"].split()[1:]:
+            meta["expect"] = " ".join([meta["expect"].split()[0]] + [rn[1] if x == rn[0] else x for x in meta["expect"].split()[1:]])
     # hold the configuration's lock from the consistency check to the end of the rustc run: the cached rmeta is only valid together
     # with the dependency artefacts that are in the shared target directory right now
     with extract.config_lock(cfg):
@@ -76,6 +100,9 @@ def _compile(name, meta, cfg, fdir):
 def check(ctx, pid, name):
     meta = parse(name)
     rule = pid + "-W"
+    rn = real_field_names(ctx, meta)
+    if rn and meta.get("expect") and rn[0] in meta["expect"].split()[1:]:
+        meta["expect"] = " ".join([meta["expect"].split()[0]] + [rn[1] if x == rn[0] else x for x in meta["expect"].split()[1:]])
     exp = meta["expect"]
     rc, diags, raw = compile_witness(ctx, name, meta)
     where = "witness/%s.rs" % name
